@@ -58,7 +58,7 @@ func init() {
 		ID:          "C36",
 		Explanation: "RI/RJ: over the module functions reachable (VTA call graph) from the query bodies, task.run and Canonicalize, no clock/random/environment primitive is called outside the reviewed stopwatch, and every map / sync.Map iteration is order-insensitive by idiom or reviewed (diagnostics pushed in map order are sorted by Canonicalize before being observable). RC4: Run returns a report only after Canonicalize and nothing is appended afterwards. RU: every field of report.Diagnostic must be a sort key of Canonicalize (directly, or through Primary()); un-keyed observable fields make the canonical order depend on the input order and are reported. RU2: on every path of Canonicalize each mutation of r.Diagnostics besides the sort (assignment, marking, slices.DeleteFunc, function literal or same-package callee doing so) is preceded by the sort, so which duplicate survives is decided over the sorted slice. RU3: inside package incremental a task's report is handed out by address only in (*Task).Report and otherwise written only on the leader-only section of task.run (success edge of result.CompareAndSwap(nil, …)); *Task values bound to a task are created only there — one writer per task report on every schedule.",
 		NotDecided:  "idempotence of de-duplication; determinism of the diagnostics each query produces",
-		Rules:       []func(*World){rc4Incremental, ruCanonicalize, ru2SortBeforeDedup, ru3ReportSingleWriter, riIncremental},
+		Rules:       []func(*World){rc4Incremental, ruCanonicalize, ru2SortBeforeDedup, ru3ReportSingleWriter, ru4KeysUnconditional, ru5CollectionReadOnly, riIncremental},
 	})
 	register(&Property{
 		ID:          "C37",
